@@ -243,17 +243,21 @@ def explore (sh : Shape) (c : Cfg) (allow : Label → St → Bool) : Nat → Lis
       explore sh c allow fuel (rest ++ succ.eraseDups) (s :: seen) stuck
 
 /-- the experiment of the harness (go/cmd/harness/eng_proto.go `stopat`): one task of the given kind has been
-    queued through the API (`task` = "remove" | "import" | "none"), `nb` block notifications are queued, and
-    the stop request is placed as `place` says ("now": anywhere; "worker": while the worker is inside a
+    queued through the API (`task` = "remove" | "import" | "none"), `nb` block notifications are queued, every
+    database step of the task succeeds, and the stop request is placed as `place` says ("now": right after the
+    API call, i.e. before the worker is inside a database step; "worker": while the worker is inside a
     database step; "handler": while the follower is inside a block). Can the system get stuck? -/
 def canHang (sh : Shape) (c : Cfg) (task place : String) (nb : Nat) : Bool :=
   let allow (l : Label) (s : St) : Bool :=
     match l with
-    | .eStop => if place = "worker" then window s.wp else if place = "handler" then s.hp == .blk else true
+    | .eStop => if place = "worker" then window s.wp else if place = "handler" then s.hp == .blk else !window s.wp
     | .eBlk | .eTx | .aCheck | .aPush | .aPushDrop => false
     | .wTakeImp => task == "import"
     | .wTakeRem => task == "remove"
     | .wTakeSkip => false
+    | .wCommitI o => o == .fin
+    | .wCommitR1 ok => ok
+    | .wCommitR2 o => o != .err
     | _ => true
   let s0 : St := { nt := if task = "none" then 0 else 1, nb := nb }
   !(explore sh c allow 4000 [s0] [] []).isEmpty
